@@ -54,13 +54,18 @@ SConnAbort   == More /\ E.a = "ConnAbort" /\ ConnAbort /\ Adv(E)
 STpcAbort    == More /\ E.a = "TpcAbort" /\ TpcAbort /\ Adv(E)
 SOtherCommit == More /\ E.a = "OtherCommit" /\ OtherCommit(E.o, E.x) /\ Adv(E)
 SUBegin      == More /\ E.a = "UBegin" /\ UBegin(KTid(E.t)) /\ Adv([E EXCEPT !.t = KTid(E.t)])
+SUCopyFail   == More /\ E.a = "UStoreCopyFail" /\ UStoreCopyFail /\ Adv(E)
+SWrong       == More /\ E.a = "Wrong" /\ Wrong(E.m) /\ Adv(E)
+SOtherAbort  == More /\ E.a = "OtherAbort" /\ OtherAbort(E.b, E.x) /\ Adv(E)
+SOtherFinish == More /\ E.a = "OtherFinish" /\ OtherFinish(E.b, E.x) /\ Adv(E)
+SLate        == More /\ E.a = "Late" /\ LateQ /\ Adv(E)
 SPack        == More /\ E.a = "Pack" /\ Pack(KTid(E.T)) /\ Adv([E EXCEPT !.T = KTid(E.T)])
 
 SStep == \/ SCreateBlob \/ SRewrite \/ SAppend \/ SConsumeFile \/ SConsumeFail \/ SModifyP \/ SSavepoint \/ SRollback \/ SAbortTxn
          \/ STpcBegin \/ SStoreOK \/ SStoreFail \/ SUStoreOK \/ SUStoreFail \/ SVote \/ SFinish \/ SConnAbort
-         \/ STpcAbort \/ SOtherCommit \/ SUBegin \/ SPack
+         \/ STpcAbort \/ SOtherCommit \/ SUBegin \/ SPack \/ SUCopyFail \/ SWrong \/ SOtherAbort \/ SOtherFinish \/ SLate
 \* (the enabling condition of Pack is written out: ENABLED would evaluate the packer a second time)
-PackEnabled(T) == HasPack /\ Idle /\ IsClean(con) /\ T \in 1..clk
+PackEnabled(T) == HasPack /\ Idle /\ aux.late = "none" /\ IsClean(con) /\ T \in 1..clk
 SSkip == /\ More
          /\ IF E.a = "Pack" THEN ~PackEnabled(KTid(E.T)) ELSE ~ENABLED SStep
          /\ Adv([a |-> "Skip"]) /\ UNCHANGED vars
